@@ -1,7 +1,7 @@
 SPECIFICATION MCSpec
 CONSTANT Procs = {"p1", "p2"}
 CONSTANT FixF6 = TRUE
-CONSTANT FixF21 = TRUE
+CONSTANT FixF21 = FALSE
 INVARIANT TypeOK
 INVARIANT OneBodyAtATime
 INVARIANT NoBodyAfterDone
